@@ -61,6 +61,12 @@ func init() {
 		Families: func(c *mon.Config) []mon.Family {
 			nc := c07Corpus(c)
 			return []mon.Family{
+				{Name: "cold-start", N: 1, Serial: true, Run: func(w *mon.W, _ int) {
+					l := coldPbCalls()
+					if coldFirst(w, l) && coldLast(w, l) {
+						w.Bucket("cold-start")
+					}
+				}},
 				{Name: "cuts", Env: 1, N: nc, Run: c07Cuts},
 				{Name: "read-errors", N: nc, Run: c07ReadErrors},
 				{Name: "write-faults", Env: 1, N: nc, Run: c07WriteFaults},
